@@ -58,11 +58,61 @@ def ts_role(f, d):
         if os_ and all(isinstance(strip(o), dict) and strip(o).get('k') == 'call' and
                        strip(o).get('name') == 'DiskInterface::Stat' for o in os_):
             return 'NOW'
-        if d['n'].split('#')[0].split('@')[0] in ('record_mtime',):
+        if d['n'].split('#')[0].split('@')[0] in rec_vars(f):
             return 'REC'
         if d['n'].split('#')[0].split('@')[0] in ('mtime', 'deps_mtime', 'new_mtime'):
             return 'NOW' if any(mentions_call(o, 'DiskInterface::Stat') for o in os_) else 'TS'
     return None
+
+
+def rec_vars(f):
+    """The locals in which `f` accumulates the mtime it hands to BuildLog::RecordCommand: the variable passed there and
+    every local it is (transitively) assigned from, except those that only ever hold a fresh Stat() result.  Names
+    without the `#k` / `@k` suffixes.  {'record_mtime'} when f does not call RecordCommand."""
+    c = getattr(f, '_rec_vars', None)
+    if c is not None:
+        return c
+    out = {'record_mtime'}
+    todo = []
+    for e in f.calls('BuildLog::RecordCommand'):
+        if len(e.get('args') or []) > 3:
+            todo += [x['n'] for x in walk(e['args'][3]) if isinstance(x, dict) and x.get('k') == 'var' and x.get('vk') == 'local']
+    seen = set()
+    while todo and len(seen) < 12:
+        v = todo.pop()
+        if v in seen:
+            continue
+        seen.add(v)
+        os_ = origins(f, {'k': 'var', 'n': v, 'vk': 'local'})
+        if os_ and all(isinstance(strip(o), dict) and strip(o).get('k') == 'call' and strip(o).get('name') == 'DiskInterface::Stat' for o in os_):
+            continue                                    # a fresh stat result: NOW, not the accumulator
+        out.add(v.split('#')[0].split('@')[0])
+        for e in f.events():
+            src = None
+            if e['k'] == 'decl' and e['n'] == v and e.get('init') is not None:
+                src = e['init']
+            elif e['k'] == 'asg' and e.get('op') == '=' and isinstance(strip(e['l']), dict) and strip(e['l']).get('k') == 'var' and strip(e['l'])['n'] == v:
+                src = e.get('r')
+            if src is not None:
+                # only timestamp-valued operands: the condition of `c ? a : b` is not a source of the value
+                st = [strip(src)]
+                while st:
+                    x = st.pop()
+                    while isinstance(x, dict) and x.get('k') in ('cast', 'paren') and x.get('e') is not None:
+                        x = strip(x['e'])
+                    if isinstance(x, dict) and x.get('k') == 'cond':
+                        st += [strip(x['t']), strip(x['f'])]
+                    elif isinstance(x, dict) and x.get('k') == 'var' and x.get('vk') == 'local' and x['n'] not in seen:
+                        todo.append(x['n'])
+    try:
+        f._rec_vars = out
+    except Exception:
+        pass
+    return out
+
+
+def is_rec_var(f):
+    return lambda d: isinstance(strip(d), dict) and strip(d).get('k') == 'var' and strip(d)['n'].split('#')[0].split('@')[0] in rec_vars(f)
 
 
 def _def_closure(f, d, limit=12):
